@@ -391,10 +391,10 @@ def logv_section(mods):
     flags = {"expv": {}, "compose": {}}
     for D in (2, 3):
         for ac in (True, False):
-            for iters in (1, 2):
+            for iters, N in ((1, 1), (2, 1), (1, 2)):
                 rec = Recorder()
                 shape = shapes_for(D, ac)
-                f = sym((1, D) + shape, "f")
+                f = sym((N, D) + shape, "f")
                 Fp = TorchProxy(st.functional, grid_sample=rec)
                 with patched(img, "F", Fp), patched(flow_mod, "F", Fp), patched(grid_mod, "torch", torch_proxy()):
                     r = flow_mod.logv(f, num_iters=iters, bch_terms=0, sigma=None, exp_steps=1, align_corners=ac)
